@@ -67,6 +67,9 @@ type Op struct {
 	K string `json:"k"`
 	A int    `json:"a,omitempty"`
 	B int    `json:"b,omitempty"`
+	// NW (fulfill): no Resolve() waiter is started on a client of the promise (waiting touches the client, which
+	// brings its hook up to date - some histories need clients that are left alone)
+	NW bool `json:"nw,omitempty"`
 }
 
 type Case struct {
@@ -381,6 +384,9 @@ func (m *machine) exec(op Op) error {
 		wctx, wcancel := context.WithCancel(context.Background())
 		defer wcancel()
 		for _, hd := range m.handles {
+			if op.NW {
+				break
+			}
 			if hd.c != nil && !hd.released && final(hd.hook) == p {
 				waiter = make(chan error, 1)
 				go func(c *capnp.Client) { waiter <- c.Resolve(wctx) }(hd.c)
@@ -623,16 +629,36 @@ func run(c Case) (pbt.Result, error) {
 var opKinds = []string{"new", "newP", "addref", "addref", "release", "release", "release", "weak", "weakadd", "weakadd", "send", "send", "recv", "finish", "finish", "fulfill", "fulfill", "state"}
 
 func genOps(t *rapid.T, n int) []Op {
+	if rapid.IntRange(0, 5).Draw(t, "skeleton") == 0 {
+		// a chain of three promises fulfilled in a drawn order with clients that were handed out earlier and not touched
+		// since (so that a Fulfill meets a client whose hook is several resolutions behind), then the capability's
+		// handles released in a drawn order with calls and state checks in between
+		ops := []Op{{K: "newP"}, {K: "newP"}, {K: "newP"}, {K: "new"}} // handles 0-2: promised clients; 3: the capability
+		links := []Op{{K: "fulfill", A: 1, B: 2, NW: true}, {K: "fulfill", A: 2, B: 3, NW: true}, {K: "fulfill", A: 0, B: 1, NW: true}}
+		for _, i := range rapid.Permutation([]int{0, 1, 2}).Draw(t, "sk-order") {
+			ops = append(ops, links[i])
+			if rapid.IntRange(0, 3).Draw(t, "sk-gap") == 0 {
+				ops = append(ops, Op{K: rapid.SampledFrom([]string{"addref", "weak", "send", "finish"}).Draw(t, "sk-k"), A: rapid.IntRange(0, 7).Draw(t, "a"), B: rapid.IntRange(0, 7).Draw(t, "b")})
+			}
+		}
+		for _, h := range rapid.Permutation([]int{0, 1, 2, 3}).Draw(t, "sk-rel") {
+			ops = append(ops, Op{K: "release", A: h}, Op{K: "send", A: rapid.IntRange(0, 3).Draw(t, "sk-call")}, Op{K: "finish"}, Op{K: "state", A: rapid.IntRange(0, 3).Draw(t, "sk-state")})
+		}
+		return ops
+	}
 	ops := []Op{{K: rapid.SampledFrom([]string{"new", "newP"}).Draw(t, "first")}}
 	for i := 0; i < n; i++ {
 		ops = append(ops, Op{K: rapid.SampledFrom(opKinds).Draw(t, "k"), A: rapid.IntRange(0, 7).Draw(t, "a"), B: rapid.IntRange(0, 7).Draw(t, "b")})
+		if ops[len(ops)-1].K == "fulfill" {
+			ops[len(ops)-1].NW = rapid.Bool().Draw(t, "nw")
+		}
 	}
 	return ops
 }
 
 var _ = pbt.Register(pbt.Spec[Case]{
 	Property: "C10", Name: "sequential-model",
-	Rule:  "op scripts (up to 40 ops) over a pool of clients: NewClient, NewPromisedClient, AddRef, Release, WeakRef, WeakClient.AddRef, SendCall/RecvCall (the instrumented hook holds a call open until a later 'finish' op), Fulfill(promise, client|nil) incl. chains of promises (a Resolve() waiter on a live client of the promise is started first and must return once it is fulfilled), IsValid/State/Resolve(cancelled context), calls through released and null clients; ops predicted to block (last Release / Fulfill while a call is open) run on their own goroutine. Reference model: per hook refs/calls/resolution with reference transfer on Fulfill. Invariant after every step: a hook is shut down iff it has no reference (or is a resolved promise) and no open call - never twice, never during a call, never while referenced; each call is delivered exactly once to the hook the client resolves to or fails with an error answer on released/null clients; WeakClient.AddRef succeeds iff a strong reference remains; every op returns; after wind-down every hook was shut down exactly once. Non-trivial: a last Release/Fulfill overlapped an open call, or references transferred through a promise.",
+	Rule:  "op scripts (up to 40 ops) over a pool of clients: NewClient, NewPromisedClient, AddRef, Release, WeakRef, WeakClient.AddRef, SendCall/RecvCall (the instrumented hook holds a call open until a later 'finish' op), Fulfill(promise, client|nil) incl. chains of promises (1 script in 6 links three promises in a drawn order through clients that were not touched since they were handed out, then releases the four handles in a drawn order) (a Resolve() waiter on a live client of the promise is started first and must return once it is fulfilled), IsValid/State/Resolve(cancelled context), calls through released and null clients; ops predicted to block (last Release / Fulfill while a call is open) run on their own goroutine. Reference model: per hook refs/calls/resolution with reference transfer on Fulfill. Invariant after every step: a hook is shut down iff it has no reference (or is a resolved promise) and no open call - never twice, never during a call, never while referenced; each call is delivered exactly once to the hook the client resolves to or fails with an error answer on released/null clients; WeakClient.AddRef succeeds iff a strong reference remains; every op returns; after wind-down every hook was shut down exactly once. Non-trivial: a last Release/Fulfill overlapped an open call, or references transferred through a promise.",
 	Quick: 6000, Thorough: 60000,
 	Gen: func(t *rapid.T) Case { return Case{Ops: genOps(t, rapid.IntRange(1, 40).Draw(t, "n"))} },
 	Run: run,
